@@ -342,3 +342,8 @@ def run(rep: Report) -> None:
                   key="allow_free")
     else:
         rep.refuted("compiles", "ready reference network", where, f"to_function raises {r[1].exc}", key="compile-raise")
+    # the function is that of the most recent step: compile, step again, compile again (same engine)
+    from .. import compile as _CP
+
+    _CP.check_recompile(rep, rep.prog, "Engine.to_function")
+
